@@ -4,6 +4,7 @@ import (
 	"bufio"
 	"os"
 	"strings"
+	"time"
 )
 
 // ops maps the first token of an op line to the function that re-runs it on the real code.
@@ -17,8 +18,29 @@ func run(opline string) {
 		emit(opline, "UNKNOWN-OP")
 		return
 	}
-	emit(opline, guard(func() string { return h(f[1:]) }))
+	// watchdog: an operation that does not return (a spinning loop in the library) is reported as HANG;
+	// its goroutine cannot be stopped and keeps one core busy, so after a few of them the run is cut short.
+	if f[0] == "conc" || f[0] == "dialc" || hangs >= 3 {
+		if hangs >= 3 {
+			emit(opline, "HANG-SKIPPED")
+			return
+		}
+		emit(opline, guard(func() string { return h(f[1:]) }))
+		return
+	}
+	done := make(chan string, 1)
+	go func() { done <- guard(func() string { return h(f[1:]) }) }()
+	select {
+	case res := <-done:
+		emit(opline, res)
+	case <-time.After(opTimeout):
+		hangs++
+		emit(opline, "HANG")
+	}
 }
+
+var hangs int
+var opTimeout = 60 * time.Second
 
 // replayFile re-runs every op line of a corpus/replay file (text before " => " if present).
 func replayFile(path string) {
